@@ -64,6 +64,56 @@ func c15R1(c *Ctx) {
 			}
 		}
 	})
+	// the announced size is a plain sum of those terms: walk the accumulator stored into the reader
+	nAcc := 0
+	eachInstr(f, func(in ssa.Instruction) {
+		st, ok := in.(*ssa.Store)
+		if !ok {
+			return
+		}
+		if nm, _ := fieldAddrName(st.Addr); nm != "archiveFileReader.size" {
+			return
+		}
+		nAcc++
+		seen := map[ssa.Value]bool{}
+		bad := ""
+		var walk func(v ssa.Value)
+		walk = func(v ssa.Value) {
+			v = strip(v)
+			if seen[v] {
+				return
+			}
+			seen[v] = true
+			switch x := v.(type) {
+			case *ssa.Phi:
+				for _, e := range x.Edges {
+					walk(e)
+				}
+			case *ssa.BinOp:
+				if x.Op != token.ADD {
+					bad = "operator " + x.Op.String() + " at " + c.pos(x.Pos())
+					return
+				}
+				walk(x.X)
+				walk(x.Y)
+			case *ssa.Convert:
+				walk(x.X)
+			case *ssa.Const:
+				if z, isI := constInt(x); !isI || (z != 0 && z != 1) {
+					bad = "constant term " + x.String()
+				}
+			default:
+				if !isLenOf(v, isFieldLoad("Header")) && !isFieldLoad("Size")(v) {
+					bad = "term " + v.String() + " at " + c.pos(v.Pos())
+				}
+			}
+		}
+		walk(st.Val)
+		c.check(bad == "", "newArchiveReader/size-is-a-sum", c.ipos(st), "the announced size is a sum of header lengths, separators and file sizes", "the announced size is not a plain sum of header lengths + 1 and file sizes: "+bad)
+	})
+	if nAcc == 0 {
+		c.undecided("newArchiveReader/size-is-a-sum", "no store of the announced size found")
+	}
 	c.check(hdrPlus1, "newArchiveReader/size+=len(header)+1", c.pos(f.Pos()), "each entry contributes len(header)+1 to the announced size", "the announced size does not count len(header)+1 per entry")
 	c.check(sizeTerm, "newArchiveReader/size+=fileSize@!dir", c.pos(f.Pos()), "non-directories contribute their size", "file sizes are not added for exactly the non-directory entries")
 	c.check(hdrFromEncode, "newArchiveReader/header=encode(json)", c.pos(f.Pos()), "the header is the encoded JSON (no newline inside: base64)", "the header is not the encoded JSON of the entry")
